@@ -221,8 +221,27 @@ def _case(rng, tier, idx, ty, n, exact, nq):
     f32 = ty[2] == 'f'
     T = S if f32 else D
     pts, kind, scale = _gen_points(rng, n, cd, f32, exact)
+    extra_q = []
+    if n >= 4 and not exact and rng.chance(0.2):      # (not on the exact-arithmetic sets: their distances must stay exactly representable)
+        # a point by its POSITION in the list (the last / the first one) is the only strict extreme of the set along an axis, and
+        # some queries lie beyond that face: a bounding box computed by a loop that mishandles its first / last iteration (seeded
+        # change c08e: two points per iteration, wrong remainder test — the last point of an even-sized set is never visited) is
+        # too tight exactly there
+        lo = [min(p[j] for p in pts) for j in range(cd)]
+        hi = [max(p[j] for p in pts) for j in range(cd)]
+        j = rng.below(cd)
+        side = rng.choice([1.0, -1.0])
+        w = (hi[j] - lo[j]) or 1.0
+        pos = len(pts) - 1 if rng.chance(0.7) else 0
+        ext = (hi[j] if side > 0 else lo[j]) + side * w * rng.choice([0.25, 0.5, 2.0])
+        pts[pos] = list(pts[pos])
+        pts[pos][j] = to_f32(ext) if f32 else ext
+        for _ in range(4):
+            q = [rng.uniform(lo[c], hi[c]) for c in range(cd)]
+            q[j] = pts[pos][j] + side * w * rng.uniform(0.05, 1.0)
+            extra_q.append([to_f32(x) for x in q] if f32 else q)
     lines = ['kd.build %s %d %s' % (ty, n, ' '.join(T(x) for p in pts for x in p))]
-    for q in _queries(rng, pts, cd, f32, exact, scale, nq):
+    for q in list(_queries(rng, pts, cd, f32, exact, scale, nq)) + extra_q:
         qt = ' '.join(T(x) for x in q)
         r = rng.below(10)
         kmax = min(n, 50)
